@@ -59,9 +59,22 @@ def run(tier, seed):
     ctx.assumptions = ["operand evaluation order of procedure calls is free (8 strategies), the order inside derived forms is fixed by R7RS",
                        "identifiers x, temp, atom-key are injected at a low rate to exercise the known-finding classifier for the unhygienic expander"]
     legs = ["dev"] if tier == "quick" else ["dev", "release"]
+    from . import gen_text
+    # one program in twelve runs on an aged interpreter: 60-400 forms that each fail (syntax errors inside derived forms, faults under nested
+    # derived forms and calls) are evaluated first; the program's forms are judged as usual
+    aged = {i: gen_text.aging(rng, rng.choice([60, 150, 400])) for i in range(len(progs)) if i % 12 == 5}
     for leg in legs:
-        jobs = [diff.job_for(forms, "p%d" % i) for i, (tag, forms) in enumerate(progs)]
+        jobs = []
+        for i, (tag, forms) in enumerate(progs):
+            job = diff.job_for(forms, "p%d" % i)
+            if i in aged:
+                job["steps"] = [{"src": t} for t in aged[i]] + job["steps"]
+            jobs.append(job)
         recs = core.run_jobs(jobs, leg, timeout=600 if tier == "quick" else 3000, tag="c05")
+        for i, rec in enumerate(recs):
+            if i in aged and rec and "steps" in rec:
+                rec["steps"] = rec["steps"][len(aged[i]):]
+                ctx.count("programs_on_aged_interpreters")
         suspects = []
         for (tag, forms), rec in zip(progs, recs):
             ctx.evaluations += 1
